@@ -1,2 +1,28 @@
-(* C17 -- statement file *)
-From SV Require Import Schema.Model.
+(* C17 -- schema text is parsed as RFC 4512 defines it: the totality clause (partial; the grammar
+   clause is decided by the reference-parser check only). *)
+From Coq Require Import ZArith NArith List Bool.
+From SV Require Import Base.Py Rx.Syntax Rx.Lemmas Gen.Generated Schema.Model Schema.Total.
+Import ListNotations.
+
+(* For ANY string each of the three parsers returns a definition or raises ValueError, nothing else:
+   the matcher never exhausts its steps on any pattern and input (general theorem), re.sub always
+   answers, the extension loops make progress, the groups the code indexes are always captured. *)
+Theorem C17_partial_object_class_total : forall s, benign (oc_from_string s).
+Proof. exact oc_from_string_total. Qed.
+Theorem C17_partial_attribute_type_total : forall s, benign (at_from_string s).
+Proof. exact at_from_string_total. Qed.
+Theorem C17_partial_dit_content_rule_total : forall s, benign (dcr_from_string s).
+Proof. exact dcr_from_string_total. Qed.
+
+(* the general facts about the regular-expression engine of the model *)
+Theorem C17_matcher_never_exhausts_its_steps : forall r e s, re_match r e s <> BFuel.
+Proof. exact re_match_total. Qed.
+Theorem C17_mandatory_groups_are_captured :
+  forall r e s p cs i, re_match r e s = BYes p cs -> must_capture i r = true -> exists se, cap_lookup i cs = Some se.
+Proof. exact re_match_captures. Qed.
+
+Print Assumptions C17_partial_object_class_total.
+Print Assumptions C17_partial_attribute_type_total.
+Print Assumptions C17_partial_dit_content_rule_total.
+Print Assumptions C17_matcher_never_exhausts_its_steps.
+Print Assumptions C17_mandatory_groups_are_captured.
